@@ -173,7 +173,7 @@ class Run:
         self.events = []
 
 
-STALE = b"left behind by an earlier invocation\n"
+STALE = core.STALE
 
 
 def written(out) -> bool:
